@@ -1,0 +1,8 @@
+// Copyright 2025 NVIDIA CORPORATION
+// SPDX-License-Identifier: Apache-2.0
+
+//go:build !verif
+
+package framework
+
+func verifStatementEvent(string, *Statement, int) {}
